@@ -469,10 +469,10 @@ def run(ctx):
                 run.instance(R6, {"fn": pp.short(fid), "obligation": "delete_unconfirmed is the constant false here: nothing is deleted, no refresh precondition", "site": c.site_of(f, b)}, held=True)
                 continue
             ups = [(ub, ut) for ub, ut in cfg.find_calls(f, UO) if vf.const_of_operand(f, ut["a"][2]) == "1"]
-            edges = set()
-            for ub, _ut in ups:
-                edges |= cfg.call_guard(f, ub).ok
-            held = bool(edges) and cfg.must_pass(f, edges, {b})[0]
+            # (or the updater's refresh itself, asked for all records)
+            ups += [(ub, ut) for ub, ut in cfg.find_calls(f, UPD + "refresh_outputs") if len(ut["a"]) > 3 and vf.const_of_operand(f, ut["a"][3]) == "1"]
+            from .shared import refreshed_before
+            held = refreshed_before(f, {b}, ups)
             run.instance(R6, {"fn": pp.short(fid), "obligation": "scan::scan is reached only through the Ok edge of update_outputs(.., true)", "site": c.site_of(f, b)}, held=held)
             if not held:
                 run.finding(Finding(R6, fid, "a scan that may delete unconfirmed outputs runs on records that were not refreshed first (a mined but not yet refreshed output would be deleted)", site=c.site_of(f, b)))
@@ -735,6 +735,67 @@ def run(ctx):
         run.instance(R10, {"fn": "scan", "obligation": "Locked records to release and Unconfirmed records to drop are taken from the same scope, or an entry is cancelled together with all it has locked", "locked: scanned range only": ranged, "unconfirmed: all records": allrec, "cancel releases by transaction": by_tx}, held=held)
         if not held:
             run.finding(Finding(R10, sc.id, "with a start height, delete_unconfirmed cancels a transaction because of its unconfirmed output (whatever its height) but releases only the reserved inputs it finds in the scanned range: older inputs stay Locked under a cancelled transaction", site=sc.loc()))
+    R11 = "C16.R11"
+    run.rule(R11, "the refresh a scan starts from covers the records of every account: scan compares all accounts with the chain but only looks at the status of the records it matches (a spent input of another account is not on chain, a mined output of another account is still Unconfirmed)", floor=1)
+    osc11 = ctx.fn(c.LW + "api_impl::owner::scan")
+    if osc11 is None:
+        run.error("C16.R11: api_impl::owner::scan not found")
+    else:
+        scs11 = {b for b, _t in cfg.find_calls(osc11, S + "scan")}
+        RO = (UPD + "refresh_outputs", UPD + "refresh_output_state")
+        NARROW = ("*Iterator::filter", "*Iterator::take", "*Iterator::skip", "*Iterator::nth", "*Iterator::find", "*Iterator::last", "*Iterator::take_while", "*Iterator::skip_while", "*Iterator::step_by", "*Iterator::filter_map", "*::truncate", "*::first", "*::last", "*::pop")
+
+        def _all_accounts_refresh(g):
+            """(param index or None, True) if g refreshes every account path (possibly only when a bool parameter is set)"""
+            for rb, rt in [x for n_ in RO for x in cfg.find_calls(g, n_)]:
+                if len(rt["a"]) < 4:
+                    continue
+                org = vf.origins(g, rt["a"][2])
+                if not vf.has_call(org, c.WB + "acct_path_iter") or any(vf.has_call(org, n_) for n_ in NARROW):
+                    continue
+                ab = [b for b, _t in cfg.find_calls(g, c.WB + "acct_path_iter")]
+                # is the account list taken from acct_path_iter on every path, or under a parameter?
+                if cfg.must_pass(g, set(), {rb}, cut_nodes=frozenset(ab))[0] and not vf.has_call(org, c.WB + "parent_key_id"):
+                    return (None, rt["a"][3], rb)
+                for i in range(1, g.argc + 1):
+                    if g.locals[i]["ty"] != "bool":
+                        continue
+                    gd = cfg.local_guard(g, i)
+                    if gd.ok and all(cfg.must_pass(g, gd.ok, {b_})[0] for b_ in ab):
+                        return (i, rt["a"][3], rb)
+            return None
+
+        held11, why11 = False, "no refresh of every account path (acct_path_iter) found in front of scan::scan"
+        cands = []
+        for b, t in osc11.calls():
+            g = db.fns.get(t.get("f") or "")
+            if g is None or not g.id.startswith(c.LW):
+                continue
+            r = _all_accounts_refresh(g)
+            if r is None:
+                continue
+            pi, ua_op, _rb = r
+            cands.append(pp.short(g.id))
+            if pi is not None and vf.const_of_operand(osc11, t["a"][pi - 1]) != "1":
+                why11 = "%s refreshes every account only when its parameter %d is set; scan passes %s" % (pp.short(g.id), pi, vf.const_of_operand(osc11, t["a"][pi - 1]))
+                continue
+            # update_all must be the constant true (directly, or the callee's parameter fed with true)
+            ua = vf.const_of_operand(g, ua_op)
+            if ua != "1":
+                src = vf.strip_clones(g, ua_op)
+                if not (src and 1 <= src <= g.argc and vf.const_of_operand(osc11, t["a"][src - 1]) == "1"):
+                    why11 = "%s is not asked to refresh all records (update_all)" % pp.short(g.id)
+                    continue
+            if scs11 and cfg.must_pass(osc11, cfg.call_guard(osc11, b).ok, scs11)[0]:
+                held11 = True
+        r_self = _all_accounts_refresh(osc11)
+        if r_self is not None and r_self[0] is None and vf.const_of_operand(osc11, r_self[1]) == "1":
+            from .shared import refreshed_before
+            if refreshed_before(osc11, scs11, [(r_self[2], osc11.bbs[r_self[2]]["t"])], loop_iter_pat=c.WB + "acct_path_iter"):
+                held11 = True
+        run.instance(R11, {"fn": "owner::scan", "obligation": "every path to scan::scan passes the Ok edge of a refresh (update_all = true) of every account path", "refreshing callees": cands}, held=held11)
+        if not held11:
+            run.finding(Finding(R11, osc11.id, "a scan refreshes only the active account before it compares every account with the chain: the records of other accounts keep a stale status that the scan does not look at (inputs of a cancelled but mined send stay Unspent; with a start height and delete_unconfirmed a mined output is deleted)", site=osc11.loc(), detail=why11))
     run.not_decided += [
         "completeness over chain histories ('exactly the outputs of the seed') - depends on range-proof rewinding and the node's paging",
         "equality of the restored totals with the original wallet",
